@@ -151,6 +151,12 @@ def step (st : St) (op impl : List String) : St × String × String :=
     | some c => ({ model := { st.model with conn := c, dialoutState := name == "dialout",
                                              world := { st.model.world with virt := [] } } }, "ok", "ok")
     | none => (st, "bad-op", "na")
+  | ["race", _n] =>
+    -- concurrent leave / transient update of two further clients: everybody is still served
+    (st, "ok", match impl with
+      | ["ok"] => "ok"
+      | ["stuck"] => "violated:server-stuck-after-concurrent-leave-and-transient-update"
+      | _ => "na")
   | "msg" :: _doc :: _pad :: toks =>
     let kv := parseKV toks
     if get kv "dec" == "panic" then (st, "decoder-panic", "violated:decoder-panic") else
